@@ -399,7 +399,10 @@ theorem accepted_trace_authorized (secretOK : Bool) (evs : List Ev) (h : checkTr
        (e.skip = true ∧ secretOK = true ∧ e.kind = .addReader)) := by
   intro pre e post he ha
   have hp := checkFrom_sound secretOK [] evs h pre e post he
-  simp only [List.nil_append, evProblem, ha, Bool.not_true, Bool.false_eq_true, if_false] at hp
+  have hk : (e.kind == EvKind.media) = false := by
+    simp only [Ev.isAttach, Bool.and_eq_true, Bool.or_eq_true, beq_iff_eq] at ha
+    rcases ha.2 with h | h <;> simp [h]
+  simp only [List.nil_append, evProblem, hk, ha, Bool.not_true, Bool.false_eq_true, if_false] at hp
   by_cases h1 : ((e.kind == EvKind.addPub) != e.publish) = true
   · simp [h1] at hp
   · simp only [h1] at hp
@@ -422,6 +425,22 @@ theorem accepted_trace_authorized (secretOK : Bool) (evs : List Ev) (h : checkTr
           exact Or.inr (Or.inr ⟨rfl, hsec.1, hsec.2⟩)
         · simp only [hsec] at hp
           exact absurd hp (ite_some_ne_none _ _ _)
+
+/-- **media is backed by an authorization for that path**: in an accepted trace, every media response that was
+    served for path `p` is preceded in the same session by an admitted, granted, non-SkipAuth reader request for
+    exactly `p` (or the client holds the CDN secret). -/
+theorem accepted_media_authorized (evs : List Ev) (h : checkTrace false evs = none) :
+    ∀ pre e post, evs = pre ++ e :: post → e.kind = .media → e.granted = true →
+      ∃ f ∈ pre, f.skip = false ∧ f.publish = false ∧ f.admitted = true ∧ f.granted = true ∧ f.name = e.name := by
+  intro pre e post he hk hg
+  have hp := checkFrom_sound false [] evs h pre e post he
+  simp only [List.nil_append, evProblem, hk, beq_self_eq_true, if_true, hg, Bool.not_true, Bool.false_or] at hp
+  by_cases hb : (pre.any fun f => backsMedia f e) = true
+  · rw [List.any_eq_true] at hb
+    obtain ⟨f, hf, hbf⟩ := hb
+    simp only [backsMedia, Bool.and_eq_true, Bool.not_eq_true', beq_iff_eq, bne_iff_ne] at hbf
+    exact ⟨f, hf, hbf.1.1.1.1.2, hbf.1.1.1.2, hbf.1.1.2, hbf.1.2, hbf.2⟩
+  · simp [hb] at hp
 
 /-- what `justifies` gives for a publisher: the earlier request is an admitted FindPathConf for the same name
     with Publish, and ConfToCompare names the configuration it returned. -/
